@@ -192,6 +192,20 @@ impl OpResult {
             _ => true,
         }
     }
+    /// Where the points of two iterations part (index, what each has there), if they do.
+    pub fn first_point_difference(&self, other: &OpResult) -> Option<String> {
+        match (self, other) {
+            (OpResult::Raw { points: a, .. }, OpResult::Raw { points: b, .. }) => {
+                let i = a.iter().zip(b.iter()).position(|(x, y)| x != y).or(if a.len() > b.len() { Some(b.len()) } else { None })?;
+                Some(format!("point {i}: {:?} instead of {:?}", a.get(i), b.get(i)))
+            }
+            (OpResult::Simple { points: a, .. }, OpResult::Simple { points: b, .. }) => {
+                let i = a.iter().zip(b.iter()).position(|(x, y)| !spoint_bits_eq(x, y)).or(if a.len() > b.len() { Some(b.len()) } else { None })?;
+                Some(format!("point {i}: {:?} instead of {:?}", a.get(i), b.get(i)))
+            }
+            _ => None,
+        }
+    }
     pub fn brief(&self) -> String {
         match self {
             OpResult::Xml(s) => format!("xml({} bytes)", s.len()),
@@ -226,6 +240,29 @@ pub fn all_blobs<T: std::io::Read + std::io::Seek>(r: &E57Reader<T>, standalone:
     v
 }
 
+/// How often an iterator is polled again after its first error. What it hands out then is part
+/// of the operation's result: the points of an operation that failed must be a prefix of the
+/// points of the same operation without the failure.
+pub const POLLS_AFTER_ERROR: usize = 3;
+
+thread_local! {
+    static POLL_AFTER_ERROR: std::cell::Cell<bool> = const { std::cell::Cell::new(false) };
+}
+
+/// Checks whose oracle covers what an iterator does when it is polled again after an error
+/// (C07, C16, C17) switch this on for their thread; the others stop at the first error.
+pub fn set_poll_after_error(on: bool) {
+    POLL_AFTER_ERROR.with(|c| c.set(on));
+}
+
+fn polls_allowed() -> usize {
+    if POLL_AFTER_ERROR.with(|c| c.get()) {
+        POLLS_AFTER_ERROR
+    } else {
+        0
+    }
+}
+
 pub fn run_op(r: &mut E57Reader<SimDisk>, ctx: &Ctx, pcs: &[PointCloud], blobs: &[Blob], op: &ROp, sink_dev: u8) -> OpRec {
     let op_from = ctx.borrow().op_no;
     let result = match op {
@@ -242,17 +279,29 @@ pub fn run_op(r: &mut E57Reader<SimDisk>, ctx: &Ctx, pcs: &[PointCloud], blobs: 
                     Ok(it) => {
                         let mut points = Vec::new();
                         let mut end = Ending::Done;
+                        let mut polls_after_error = 0;
                         for item in it {
                             if let Some(t) = take {
                                 if points.len() >= *t {
-                                    end = Ending::Taken;
+                                    if polls_after_error == 0 {
+                                        end = Ending::Taken;
+                                    }
                                     break;
                                 }
                             }
                             match item {
+                                // a point handed out after an error counts like any other point
                                 Ok(v) => points.push(v.iter().map(val_from_e57).collect()),
                                 Err(e) => {
-                                    end = Ending::Failed(e.to_string());
+                                    if polls_after_error == 0 {
+                                        end = Ending::Failed(e.to_string());
+                                    }
+                                }
+                            }
+                            if matches!(end, Ending::Failed(_)) {
+                                // callers may poll an iterator again after an error
+                                polls_after_error += 1;
+                                if polls_after_error > polls_allowed() {
                                     break;
                                 }
                             }
@@ -278,17 +327,27 @@ pub fn run_op(r: &mut E57Reader<SimDisk>, ctx: &Ctx, pcs: &[PointCloud], blobs: 
                         it.apply_pose(opts & 32 != 0);
                         let mut points = Vec::new();
                         let mut end = Ending::Done;
+                        let mut polls_after_error = 0;
                         for item in it {
                             if let Some(t) = take {
                                 if points.len() >= *t {
-                                    end = Ending::Taken;
+                                    if polls_after_error == 0 {
+                                        end = Ending::Taken;
+                                    }
                                     break;
                                 }
                             }
                             match item {
                                 Ok(p) => points.push(spoint_from_e57(&p)),
                                 Err(e) => {
-                                    end = Ending::Failed(e.to_string());
+                                    if polls_after_error == 0 {
+                                        end = Ending::Failed(e.to_string());
+                                    }
+                                }
+                            }
+                            if matches!(end, Ending::Failed(_)) {
+                                polls_after_error += 1;
+                                if polls_after_error > polls_allowed() {
                                     break;
                                 }
                             }
